@@ -698,6 +698,7 @@ BUFR_Template *bufr_load_template( const char *filename, BUFR_Tables *mtbls )
             bufr_free_tables( tbls );
             arr_free( &(sequence) );
             free( ligne );
+            fclose( fp );
             return NULL;
             }
          else
